@@ -337,7 +337,13 @@ Init ==
 
 SetCell(c, v) == [x \in DOMAIN cells \cup {c} |-> IF x = c THEN v ELSE cells[x]]
 
+\* a message object that is inserted (content / replace / attribute / interpolation / on-error fallback) is offered
+\* to the translation function with the translation settings in force at that place
+IsMsg(v) == v.t = "obj" /\ v.kind = "msg"
 EvLog(site, a) == [n \in 1..Len(a.ev) |-> [ev |-> "call", k |-> a.ev[n].k, r |-> a.ev[n].r, site |-> site, act |-> Act]]
+                  \o (IF site.s \in {"sub", "attr", "text", "oe"} /\ IsMsg(a.r)
+                      THEN << [ev |-> "offer", d |-> mx.i18n.d, c |-> mx.i18n.c, t |-> mx.i18n.t, site |-> site, act |-> Act] >>
+                      ELSE <<>>)
 
 \* Raise exception class c at site (the running function's token is the site)
 RaiseAt(site, c) == exc' = [c |-> c, site |-> site, sites |-> <<>>]
